@@ -5,7 +5,7 @@ from __future__ import annotations
 import ast
 
 from .. import cfg as cfgmod
-from ..core import AnalysisError, U, body_walk, call_name, last_attr
+from ..core import ancestors, AnalysisError, U, body_walk, call_name, last_attr
 from ..linear import GuardAnalysis, Lin, lin
 from ..selftest import M, T
 
@@ -36,6 +36,106 @@ def _joined_template(node):
     return None
 
 
+def _canon_name_expr(e):
+    """Canonical text of a name expression for case-insensitive membership: f-string templates are lower-cased."""
+    t = _joined_template(e)
+    if t is not None:
+        return "T:" + t.lower()
+    if isinstance(e, ast.Call) and isinstance(e.func, ast.Attribute) and e.func.attr in ("lower", "casefold") and not e.args:
+        return _canon_name_expr(e.func.value)
+    return "E:" + U(e)
+
+
+def fresh_name_facts(f, recv):
+    """Forward must-dataflow over the CFG of ``f``: at each node, the set of name expressions known *not* to be in the
+    collection ``recv`` (established by ``if X in recv: raise``, ``while X in recv`` exits, ``if X not in recv: break``).
+    Assignments to a variable drop the facts that mention it; ``v = X`` transfers a fact about X to v."""
+    g = cfgmod.build(f)
+    ALL = None  # top
+
+    def test_fact(test, label):
+        """fact added on the edge with this label of a test node"""
+        neg = False
+        t = test
+        while isinstance(t, ast.UnaryOp) and isinstance(t.op, ast.Not):
+            neg = not neg
+            t = t.operand
+        if isinstance(t, ast.Compare) and len(t.ops) == 1 and U(t.comparators[0]) == recv and isinstance(t.ops[0], (ast.In, ast.NotIn)):
+            is_in = isinstance(t.ops[0], ast.In) != neg
+            # edge T of `X in recv` -> X in; edge F -> X not in
+            holds_not_in = (label == "F") if is_in else (label == "T")
+            if holds_not_in:
+                return _canon_name_expr(t.left)
+        return None
+
+    def names_in(txt_expr):
+        return {n.id for n in ast.walk(txt_expr) if isinstance(n, ast.Name)}
+
+    exprs = {}  # canonical text -> set of variable names it mentions
+
+    def remember(e):
+        c = _canon_name_expr(e)
+        exprs.setdefault(c, set()).update(names_in(e))
+        return c
+
+    IN = {n.id: ALL for n in g.nodes}
+    IN[g.entry] = frozenset()
+    work = [g.entry]
+    it = 0
+    while work and it < 5000:
+        it += 1
+        nid = work.pop()
+        node = g.nodes[nid]
+        cur = IN[nid]
+        if cur is ALL:
+            continue
+        out_by_label = {}
+        st = node.ast
+        base = set(cur)
+        if node.kind == "stmt" and isinstance(st, (ast.Assign, ast.AugAssign, ast.AnnAssign)):
+            tg = st.targets if isinstance(st, ast.Assign) else [st.target]
+            killed = {n.id for t in tg for n in ast.walk(t) if isinstance(n, ast.Name)}
+            src = remember(st.value) if isinstance(st, ast.Assign) and st.value is not None else None
+            had = src in base if src is not None else False
+            base = {c for c in base if not (exprs.get(c, set()) & killed)}
+            if isinstance(st, ast.Assign) and len(tg) == 1 and isinstance(tg[0], ast.Name) and src is not None:
+                v = tg[0].id
+                if had:
+                    base.add(remember(ast.Name(id=v, ctx=ast.Load())))
+                # remember what the variable currently equals (dropped when the variable or what it mentions changes)
+                if v not in names_in(st.value):
+                    al = f"A:{v}={src}"
+                    exprs[al] = {v} | names_in(st.value)
+                    base.add(al)
+        elif node.kind == "iter" and isinstance(st, ast.For):
+            killed = {n.id for n in ast.walk(st.target) if isinstance(n, ast.Name)}
+            base = {c for c in base if not (exprs.get(c, set()) & killed)}
+        for succ, label in g.succ[nid]:
+            o = set(base)
+            if node.kind == "test" and isinstance(st, (ast.If, ast.While)):
+                for sub in ([st.test] if not isinstance(st.test, ast.BoolOp) else []):
+                    remember(sub.left if isinstance(sub, ast.Compare) else sub)
+                fct = test_fact(st.test, label)
+                if fct is not None:
+                    exprs.setdefault(fct, set())
+                    if isinstance(st.test, ast.Compare):
+                        exprs[fct] |= names_in(st.test.left)
+                    elif isinstance(st.test, ast.UnaryOp):
+                        exprs[fct] |= names_in(st.test)
+                    o.add(fct)
+                    # the fact also holds for what the tested variable is known to equal
+                    if fct.startswith("E:"):
+                        for a_ in list(o):
+                            if a_.startswith(f"A:{fct[2:]}="):
+                                o.add(a_.split("=", 1)[1])
+            o = frozenset(o)
+            new = o if IN[succ] is ALL else (IN[succ] & o)
+            if IN[succ] is ALL or new != IN[succ]:
+                IN[succ] = new
+                work.append(succ)
+    return g, IN
+
+
 def run(repo, rep, tier):
     il = repo.cls("containers.py", "ItemsList")
     getitem = repo.func("containers.py", "ItemsList.__getitem__")
@@ -45,10 +145,18 @@ def run(repo, rep, tier):
     ga = GuardAnalysis(getitem, env=repo.consts)
     subs = [
         n for n in body_walk(getitem)
-        if isinstance(n, ast.Subscript) and U(n.value) == "self._items" and isinstance(n.ctx, ast.Load) and U(n.slice) == key
+        if isinstance(n, ast.Subscript) and U(n.value) == "self._items" and isinstance(n.ctx, ast.Load) and isinstance(n.slice, ast.Name)
+        and not any(isinstance(p_, (ast.For, ast.ListComp, ast.GeneratorExp)) and any(isinstance(x, ast.Name) and x.id == n.slice.id for x in ast.walk(getattr(p_, "target", p_)))
+                    for p_ in ancestors(n))
     ]
     if not subs:
-        raise AnalysisError("ItemsList.__getitem__: subscript self._items[key] not found")
+        raise AnalysisError("ItemsList.__getitem__: subscript self._items[<index>] not found")
+    idx_names = {U(n.slice) for n in subs}
+    # the index is the key itself or a local initialised from it
+    for v_ in sorted(idx_names - {key}):
+        inits = [n for n in body_walk(getitem) if isinstance(n, ast.Assign) and U(n.targets[0]) == v_]
+        if not (inits and all(U(n.value) == key for n in inits)):
+            raise AnalysisError(f"ItemsList.__getitem__: index `{v_}` is not the key")
     for sub in subs:
         facts = ga.facts_at(sub)
         k = lin(sub.slice)
@@ -66,7 +174,7 @@ def run(repo, rep, tier):
     rep.ob("C19.R1", getitem, f"raises {types}", "IndexError" in types and "KeyError" in types,
            "out-of-range index must raise IndexError and unknown name KeyError", key="C19.R1@getitem:raises")
     # negative normalisation adds len exactly
-    norm = [n for n in body_walk(getitem) if isinstance(n, ast.AugAssign) and U(n.target) == key]
+    norm = [n for n in body_walk(getitem) if isinstance(n, ast.AugAssign) and U(n.target) in (idx_names | {key})]
     okn = all(isinstance(n.op, ast.Add) and U(n.value) == "len(self._items)" for n in norm)
     rep.ob("C19.R1", norm[0] if norm else getitem, "negative index normalised by + len(self._items)", okn and len(norm) <= 1, "",
            key="C19.R1@getitem:normalise")
@@ -164,6 +272,7 @@ def run(repo, rep, tier):
         okg = False
         detail = "no `if name is not None: ... else: fresh-name loop` guard found"
         raise_node = None
+        dup = loop = chosen = None
         if guard_if is not None:
             name = U(guard_if.test.left)
             dup = None
@@ -205,8 +314,38 @@ def run(repo, rep, tier):
                 uses = [c for c in body_walk(f) if isinstance(c, ast.Call) and last_attr(c.func) in ("add_table", "add_sheet") and "self._model" in U(c.func)]
                 okn = any(name in [U(a) for a in c.args] for c in uses)
                 rep.ob("C19.R3", call, f"checked name `{name}` is the name given to the model", okn, "", key=f"C19.R3@{f.name}:{recv}:name-used")
+        # semantic form of the guard: at the call that creates the object in the model, the name handed over is known not
+        # to be in the collection (refused with IndexError when given, probed until fresh when generated)
+        want_call = "add_sheet" if recv.endswith("_sheets") else "add_table"
+        uses2 = [c for c in body_walk(f) if isinstance(c, ast.Call) and last_attr(c.func) == want_call and "self._model" in U(c.func)]
+        g2, facts = fresh_name_facts(f, recv)
+        sem_ok = False
+        sem_detail = "no call of the model's add_table/add_sheet found"
+        for c in uses2:
+            nid = g2.node_of(c)
+            have = facts.get(nid)
+            cands = [_canon_name_expr(a) for a in c.args] + [_canon_name_expr(k.value) for k in c.keywords]
+            if have is not None and any(x in have for x in cands):
+                sem_ok = True
+            else:
+                sem_detail = f"at `{U(c)[:70]}` none of the arguments is known to be absent from {recv} (known: {sorted(have) if have is not None else 'unreachable'})"
+        raises_index = any(isinstance(n, ast.Raise) and "IndexError" in U(n) for n in body_walk(f))
+        okg2 = sem_ok and raises_index and (g2.dominates(g2.node_of(uses2[0]), g2.node_of(call)) or g2.node_of(uses2[0]) == g2.node_of(call) if uses2 else False)
+        if okg2 and not okg:
+            okg, detail = True, ""
+        elif not okg2 and okg:
+            okg, detail = False, sem_detail
+        elif not okg and not okg2 and uses2:
+            detail = sem_detail
         rep.ob("C19.R3", call, f"{recv}.append guarded by duplicate check / fresh-name loop on {recv}", okg, "" if okg else detail,
                key=f"C19.R3@{f.name}:{recv}:guard")
+        structural = guard_if is not None and dup is not None and loop is not None and chosen is not None if guard_if is not None else False
+        if not structural:
+            # the spelled-out guard was not found: the two companion obligations are decided by the dataflow facts
+            rep.ob("C19.R3", call, "generated name is the name that was probed until fresh", sem_ok, "" if sem_ok else sem_detail, key=f"C19.R3@{f.name}:{recv}:template")
+            rep.ob("C19.R3", call, "checked name is the name given to the model", sem_ok, "" if sem_ok else sem_detail, key=f"C19.R3@{f.name}:{recv}:name-used")
+            rs = [n for n in body_walk(f) if isinstance(n, ast.Raise) and "IndexError" in U(n)]
+            raise_node = rs[0] if rs else None
         # R4: no mutation can precede the refusal
         if raise_node is not None:
             rn = g.node_of(raise_node)
